@@ -16,12 +16,16 @@ use rand::rngs::StdRng;
 use rand::{Rng, SeedableRng};
 use serde_json::{json, Value};
 use tokio::io::{AsyncReadExt, AsyncWriteExt};
-use tower::ServiceExt;
+use tower::{Service, ServiceExt};
 
 use super::*;
 use crate::report::{hash_of, Args, Report};
 
 const RULE: &str = "e2e worlds: 1-3 hyperdriver servers (auto/http1/http2 x duplex buffers 1B..64KiB / TCP / Unix, one world in four behind TLS) + public client stack (pool on/off, random pool config); rounds of 4-64 concurrent requests (7 methods, queries, 0-8 extra headers, bodies 0B..256KiB streamed in random chunks with pending injections and with or without an announced length, requests versioned HTTP/1.0, HTTP/1.1 and HTTP/2, chunked responses), cancellations after a random number of polls, HTTP/1 upgrades; every response checked online against the id-derived expectation, client and server logs joined offline; non-trivial = world in which >= 8 requests completed; distinct by (world config, seed)";
+
+const RULE03: &str = "e2e part: the traffic worlds (one in five with a transport whose readiness is a reservation of 1-2 dial slots; every second request drives the service by hand and keeps the readied instance alive until the response): under the paused clock a world whose requests neither complete nor fail is exact (the virtual 1 h timeout fires only when nothing is runnable)";
+const RULE04: &str = "e2e part: plain pooled traffic worlds, servers that speak HTTP/2 only and never close: dials per origin and round from the transport log; a burst without cancellations needs one dial per key, and a round whose keys all completed requests earlier needs none (max_idle_per_host > 0)";
+const RULE13T: &str = "e2e part: the traffic worlds' server-side request log: a request that arrives on an HTTP/1 connection (also an HTTP/2-versioned one that was given a pooled HTTP/1 connection) carries Host = URI host[:non-default port]; one that arrives on HTTP/2 carries no Host and the URI authority as :authority";
 
 #[derive(Clone, Debug)]
 pub struct WorldCfg {
@@ -145,6 +149,8 @@ pub enum Outcome {
 }
 
 pub struct WorldResult {
+    /// per round: (id of its first request, id of its last request, log sequence number when it was over)
+    pub rounds: Vec<(u64, u64, u64)>,
     pub outcomes: Vec<(ReqSpec, Outcome)>,
     pub log: Arc<Log>,
     pub hang: bool,
@@ -160,7 +166,8 @@ fn gen_request(rng: &mut StdRng, id: u64, cfg: &WorldCfg) -> (ReqSpec, usize, bo
     let upgrade = proto == Proto::H1 && rng.gen_range(0..100) < cfg.upgrade_pct;
     let h2 = match proto {
         Proto::H1 => false,
-        Proto::H2 => true,
+        // behind TLS the connection is HTTP/2 by ALPN whatever version the request carries
+        Proto::H2 => !(cfg.tls && rng.gen_bool(0.4)),
         Proto::Auto => !upgrade && !tiny && rng.gen_bool(0.5),
     };
     let methods = [http::Method::GET, http::Method::POST, http::Method::PUT, http::Method::HEAD, http::Method::DELETE, http::Method::OPTIONS, http::Method::PATCH];
@@ -223,10 +230,26 @@ fn gen_request(rng: &mut StdRng, id: u64, cfg: &WorldCfg) -> (ReqSpec, usize, bo
 
 async fn do_request(client: ClientSvc, spec: ReqSpec, server: usize, upgrade: bool, slow_read: bool) -> Outcome {
     let req = spec.build();
-    let resp = match client.oneshot(req).await {
+    // every second request drives the service by hand and keeps the instance it made ready alive until the response is
+    // there (what a middleware that owns its inner service does); the others go through `oneshot`
+    let mut kept_alive = None;
+    let resp = if spec.id % 2 == 0 {
+        let mut svc = client;
+        let fut = match svc.ready().await {
+            Ok(s) => s.call(req),
+            Err(e) => return Outcome::Failed(format!("{e:?}")),
+        };
+        let r = fut.await;
+        kept_alive = Some(svc);
+        r
+    } else {
+        client.oneshot(req).await
+    };
+    let resp = match resp {
         Ok(r) => r,
         Err(e) => return Outcome::Failed(format!("{e:?}")),
     };
+    drop(kept_alive);
     if upgrade {
         let mut resp = resp;
         if resp.status() != http::StatusCode::SWITCHING_PROTOCOLS {
@@ -288,7 +311,9 @@ pub async fn run_world_async(cfg: WorldCfg) -> WorldResult {
     let mut rng = StdRng::seed_from_u64(cfg.seed);
     let log = Arc::new(Log::default());
     let gates = Gates::default();
-    let routes = Routes { log: log.clone(), ..Default::default() };
+    // one world in five: the transport's readiness is a reservation of one of 1-2 dial slots
+    let slots = if cfg.seed % 5 == 2 { Some(Slots::new(1 + (cfg.seed / 5 % 2) as usize)) } else { None };
+    let routes = Routes { log: log.clone(), slots, ..Default::default() };
     let mut servers = Vec::new();
     for (i, (proto, net)) in cfg.servers.iter().enumerate() {
         let tls = if cfg.tls {
@@ -318,12 +343,16 @@ pub async fn run_world_async(cfg: WorldCfg) -> WorldResult {
         None
     };
     PROTOCOL_PENDING_POLLS.with(|p| p.set((cfg.seed % 3) as usize));
+    BUILDER_TLS_BEFORE_BODY.with(|p| p.set(cfg.seed % 2 == 1));
     let client = build_client(routes.clone(), pool, if cfg.tls { Some(client_tls(&["h2", "http/1.1"])) } else { None }, None);
     PROTOCOL_PENDING_POLLS.with(|p| p.set(0));
+    BUILDER_TLS_BEFORE_BODY.with(|p| p.set(false));
     let mut outcomes = Vec::new();
     let mut next_id = 1u64 + (cfg.seed % 1000) * 1_000_000;
     let mut hang = false;
+    let mut rounds = Vec::new();
     for _round in 0..cfg.rounds {
+        let first_id = next_id;
         let mut futs = FuturesUnordered::new();
         for _ in 0..cfg.per_round {
             let (spec, si, upgrade) = gen_request(&mut rng, next_id, &cfg);
@@ -361,6 +390,7 @@ pub async fn run_world_async(cfg: WorldCfg) -> WorldResult {
         for _ in 0..20 {
             tokio::task::yield_now().await;
         }
+        rounds.push((first_id, next_id - 1, log.next()));
     }
     drop(client);
     for _ in 0..50 {
@@ -370,7 +400,7 @@ pub async fn run_world_async(cfg: WorldCfg) -> WorldResult {
     for s in servers.iter_mut() {
         s.join.abort();
     }
-    WorldResult { outcomes, log, hang, exec }
+    WorldResult { rounds, outcomes, log, hang, exec }
 }
 
 /// like `spawn_server`, with a handler that also answers `Upgrade: hdv` requests
@@ -465,6 +495,90 @@ pub fn judge(cfg: &WorldCfg, res: &WorldResult, rep: &mut Report, args: &Args) {
         }
         if p.samples.len() < 3 && completed >= 8 {
             p.sample(json!({"world": replay, "completed": completed, "handled": handled.len(), "dials": res.log.dials.lock().unwrap().len(), "first_request": res.outcomes.first().map(|(s, o)| format!("{} {}{} h2={} body={}B -> {:?}", s.method, s.origin, s.path_query(), s.h2, s.body_len, o))}));
+        }
+    }
+    if args.wants("C03") {
+        let p = rep.prop("C03", RULE03);
+        p.eval(if completed >= 8 { Some(hash_of(&format!("{replay}"))) } else { None });
+        p.count("e2e_requests_resolved", res.outcomes.len() as u64);
+        if cfg.seed % 5 == 2 {
+            p.count("e2e_worlds_with_reserving_transport", 1);
+        }
+        if res.hang {
+            if cfg.multi_thread {
+                p.inconclusive.push(format!("wall-clock watchdog fired in a real-socket world {replay}"));
+            } else {
+                p.violation("e2e:request-never-resolves", format!("requests of the world neither completed nor failed although nothing can make progress any more (virtual 1h timeout fired) {replay}"), replay.clone());
+            }
+        }
+    }
+    if args.wants("C04") && cfg.pool && !cfg.tls && !res.hang {
+        let p = rep.prop("C04", RULE04);
+        let dials = res.log.dials.lock().unwrap().clone();
+        let lower = |origin: &str| origin.split_once("://").map(|(_, a)| a).unwrap_or(origin).to_ascii_lowercase();
+        for (si, (proto, _)) in cfg.servers.iter().enumerate() {
+            if *proto != Proto::H2 {
+                continue;
+            }
+            // requests to this server (all of them HTTP/2 by prior knowledge), by round
+            let hosts = [host_of(cfg, si), format!("shared.test:{}", 8000 + si)];
+            for a in hosts.iter().map(|h| h.to_ascii_lowercase()) {
+                let mut established: std::collections::BTreeSet<String> = Default::default();
+                let mut prev_end = 0u64;
+                for (r, (first, last, end)) in res.rounds.iter().enumerate() {
+                    let in_round: Vec<&(ReqSpec, Outcome)> = res.outcomes.iter().filter(|(s, _)| s.id >= *first && s.id <= *last && lower(&s.origin) == a).collect();
+                    let spellings: std::collections::BTreeSet<String> = in_round.iter().map(|(s, _)| s.origin.clone()).collect();
+                    let n_dials = dials.iter().filter(|d| d.authority == a && d.seq > prev_end && d.seq <= *end).count();
+                    if !in_round.is_empty() {
+                        p.eval(Some(hash_of(&format!("{replay}{a}{r}"))));
+                        p.count("e2e_h2_origin_rounds_judged", 1);
+                    }
+                    // (A) nobody is cancelled: all requests of a round start together, so one attempt per key serves them all
+                    if cfg.cancel_pct == 0 && n_dials > spellings.len() {
+                        p.violation("e2e:h2-origin-dialed-more-than-once-in-a-burst", format!("round {r}: {} HTTP/2 requests to {a} ({} spellings) caused {n_dials} dials | world {replay}", in_round.len(), spellings.len()), replay.clone());
+                    }
+                    // (B) every key used in this round already has a healthy HTTP/2 connection in the pool
+                    if cfg.max_idle > 0 && !spellings.is_empty() && spellings.iter().all(|s| established.contains(s)) && n_dials > 0 {
+                        p.violation("e2e:h2-origin-dialed-again-although-a-healthy-connection-is-pooled", format!("round {r}: {n_dials} dial(s) to {a} although every spelling used ({spellings:?}) completed requests in an earlier round and the peer never closes | world {replay}"), replay.clone());
+                    }
+                    for (s, o) in &in_round {
+                        if matches!(o, Outcome::Ok) {
+                            established.insert(s.origin.clone());
+                        }
+                    }
+                    prev_end = *end;
+                }
+            }
+        }
+    }
+    if args.wants("C13") {
+        let p = rep.prop("C13", RULE13T);
+        for (spec, _) in &res.outcomes {
+            for h in handled.iter().filter(|h| h.header_id == Some(spec.id)) {
+                p.eval(Some(hash_of(&format!("{replay}{}", spec.id))));
+                let (scheme, authority) = spec.origin.split_once("://").unwrap_or(("http", spec.origin.as_str()));
+                let default_port = if scheme.eq_ignore_ascii_case("https") { ":443" } else { ":80" };
+                let want = authority.strip_suffix(default_port).unwrap_or(authority);
+                if h.version == "HTTP/2.0" {
+                    p.count("e2e_h2_requests_seen_by_servers", 1);
+                    if h.host_header.is_some() {
+                        p.violation("e2e:h2-host-header-present", format!("request {} to {}: handler saw Host {:?} on an HTTP/2 request | world {replay}", spec.id, spec.origin, h.host_header), replay.clone());
+                    }
+                    if !h.authority.as_deref().map(|x| x.eq_ignore_ascii_case(authority)).unwrap_or(false) {
+                        p.violation("e2e:h2-authority-altered", format!("request {} to {}: handler saw :authority {:?} | world {replay}", spec.id, spec.origin, h.authority), replay.clone());
+                    }
+                } else {
+                    p.count("e2e_h1_requests_seen_by_servers", 1);
+                    if spec.h2 {
+                        p.count("e2e_h2_versioned_requests_carried_by_an_h1_connection", 1);
+                    }
+                    match &h.host_header {
+                        None => p.violation("e2e:h1-host-header-missing", format!("request {} ({:?} as written by the caller) to {} arrived on an HTTP/1 connection without a Host header | world {replay}", spec.id, if spec.h2 { "HTTP/2" } else { "HTTP/1.x" }, spec.origin), replay.clone()),
+                        Some(got) if !got.eq_ignore_ascii_case(want) => p.violation("e2e:h1-host-header-wrong", format!("request {} to {}: Host {got:?}, want {want:?} | world {replay}", spec.id, spec.origin), replay.clone()),
+                        _ => {}
+                    }
+                }
+            }
         }
     }
     if args.wants("C02") {
